@@ -8,6 +8,7 @@ The real CPython interpreter executes the real code objects of /repo; the
 proxies build z3 terms; Explorer re-executes once per feasible path.
 """
 import math
+import sys
 import time
 import os
 from fractions import Fraction
@@ -138,6 +139,10 @@ class Stats:
             setattr(self, k, getattr(self, k, 0) + v)
 
 
+try:
+    sys.set_int_max_str_digits(0)      # model values can be rationals with thousands of digits
+except AttributeError:
+    pass
 EX = None  # current explorer (one per process at a time)
 JIT_DEPTH = 0  # > 0 while a function decorated with numba.jit runs (set by the loader's jit stand-in)
 
